@@ -111,29 +111,57 @@ T_SlotRelease ==
   /\ UNCHANGED <<proto, fd, sock, closedBy, manifest, oldPhase, newPhase, mpc, chan, resp, stopSent, draining,
                  deadlinePassed, acks, acceptedAfterStop, sw, sa, killReq>>
 
+\* Response delivery, as the client and the backend of a parked exchange see it (ctl thread, program order):
+\*   RespPart        : the client holds the response head and a first part of the body (Backend_SendPart)
+\*   RespBackendDone : the backend wrote the whole response and the worker has read it to its end - the backend saw
+\*                     its connection closed by the worker, or nothing is left unread in the worker's socket
+\*                     (Backend_Finish; it may have happened silently before, see T_Silent)
+T_RespPart ==
+  /\ Ev.e = "RespPart" /\ Consume
+  /\ sw[Ev.r] = "old" /\ Backend_SendPart(Ev.r)
+  /\ UNCHANGED <<sw, sa, killReq>>
+
+T_RespBackendDone ==
+  /\ Ev.e = "RespBackendDone" /\ Consume
+  /\ sw[Ev.r] = "old"
+  /\ \/ Backend_Finish(Ev.r)
+     \/ req[Ev.r].stage \in TailStages /\ UNCHANGED vars
+  /\ UNCHANGED <<sw, sa, killReq>>
+
+\* outcomes of a parked exchange:  done    the complete response, every byte in its place
+\*                                 short   a clean end (close of a close-delimited response, END_STREAM) after LESS
+\*                                         than the backend sent: a truncation the client cannot see
+\*                                 corrupt bytes missing, repeated or displaced inside the body: never admissible
+\*                                 cut / timeout / status...   no complete response, and the client can tell
+NotAnAbort == {"done", "short", "corrupt"}
 T_SlotEnd ==
   /\ Ev.e = "SlotEnd" /\ Consume
   /\ sw[Ev.r] \in {"old", "backlog"}
   /\ sw' = [sw EXCEPT ![Ev.r] = "finished"]
-  /\ \/ \* complete answer relayed by the old worker
+  /\ \/ \* complete answer relayed by the old worker (a large one: the client has read the buffered tail)
         /\ Ev.out = "done" /\ Ev.by = "old" /\ Ev.be = "old" /\ sw[Ev.r] = "old"
-        /\ oldPhase \in LiveOld /\ Occupied(Ev.r) /\ req[Ev.r].stage \in {"awaitResp", "h2Await"}
+        /\ oldPhase \in LiveOld /\ Occupied(Ev.r) /\ req[Ev.r].stage \in {"awaitResp", "h2Await"} \cup TailStages
         /\ req' = [req EXCEPT ![Ev.r] = [@ EXCEPT !.st = "done"]]
+     \/ \* a response that ended clean but short: only the specification's "short" (a deviation) or the death of
+        \* the worker in the middle of a close-delimited response explain it
+        /\ Ev.out = "short" /\ Ev.be = "old" /\ sw[Ev.r] = "old"
+        /\ req[Ev.r].st = "short" \/ (req[Ev.r].st = "cut" /\ req[Ev.r].why = "death")
+        /\ req' = req
      \/ \* it was still in the backlog when the listeners moved: the successor accepted and served it
         /\ Ev.out = "done" /\ Ev.by = "new" /\ Ev.be = "new" /\ sw[Ev.r] = "backlog"
         /\ fd[sa[Ev.r]] = "new" /\ newPhase = "running"
         /\ req' = req
      \/ \* no complete answer, and the head had reached the backend through the old worker:
         \* only its death or the elapsed graceful deadline explain that
-        /\ Ev.out # "done" /\ Ev.be = "old" /\ sw[Ev.r] = "old"
+        /\ Ev.out \notin NotAnAbort /\ Ev.be = "old" /\ sw[Ev.r] = "old"
         /\ req[Ev.r].st = "cut" /\ HeadComplete(req[Ev.r].stage)
         /\ req' = req
      \/ \* no complete answer, nothing reached a backend: the connection was closed while it carried no
         \* complete request head (idle, or head not yet read), or the worker died
-        /\ Ev.out # "done" /\ Ev.be = "none" /\ sw[Ev.r] = "old"
+        /\ Ev.out \notin NotAnAbort /\ Ev.be = "none" /\ sw[Ev.r] = "old"
         /\ req[Ev.r].st \in {"cut", "closed"}
         /\ req' = req
-     \/ /\ Ev.out # "done" /\ Ev.be = "none" /\ sw[Ev.r] = "backlog"
+     \/ /\ Ev.out \notin NotAnAbort /\ Ev.be = "none" /\ sw[Ev.r] = "backlog"
         /\ fd[sa[Ev.r]] = "closed"
         /\ req' = req
   /\ UNCHANGED <<proto, fd, sock, closedBy, manifest, oldPhase, newPhase, mpc, chan, resp, stopSent, draining,
@@ -195,7 +223,7 @@ T_HamStop == Ev.e = "HamStop" /\ Consume /\ UNCHANGED <<vars, sw, sa, killReq>>
 
 T_Ctl ==
   /\ run <= NRuns /\ lc < Len(Ctl)
-  /\ \/ T_SlotOpen \/ T_SlotRelease \/ T_SlotEnd
+  /\ \/ T_SlotOpen \/ T_SlotRelease \/ T_SlotEnd \/ T_RespPart \/ T_RespBackendDone
      \/ T_ReturnSent \/ T_ReturnResp \/ T_Received \/ T_SoftStopSent \/ T_SuccStarted \/ T_Activated
      \/ T_StopResp \/ T_OldExited \/ T_OldKilled \/ T_Deadline \/ T_Probe \/ T_HamStop
 
@@ -259,6 +287,8 @@ T_Silent ==
   /\ run <= NRuns
   /\ \/ Old_ReturnListenSockets \/ Old_SoftStop \/ Old_ShutDownSessions \/ New_Start
      \/ (killReq /\ Old_Die)
+     \* a slow backend gets to the end of its response on its own
+     \/ \E r \in Reqs : sw[r] = "old" /\ Backend_Finish(r)
   /\ lastH' = 0
   /\ UNCHANGED <<run, lc, lh, hw, sw, sa, killReq>>
 
